@@ -33,7 +33,7 @@ def load_corpus(pid):
 
 
 HOOK_COMMITS = ["29e0810", "739e797", "cf39cf9", "652b91e", "e71d18b", "87e24fd", "a0b177c", "d307356", "a2cf7a8", "32ea923",
-                "c3212bb", "2017279", "f82d6ac", "f4f6e91", "3d9871e", "eae7527", "430b815", "50578be", "8cabe9e", "dbfd1e8"]
+                "c3212bb", "2017279", "f82d6ac", "f4f6e91", "3d9871e", "eae7527", "430b815", "50578be", "8cabe9e", "dbfd1e8", "b5be554", "2061294", "5e81022"]
 NOT_CLAIMED = {}
 
 
@@ -990,13 +990,17 @@ class C07(ImportSpec):
     coq_files = ["Properties/C07.v"]
     theorems = ["C07_mapping", "C07_unmapped_contributes_nothing", "C07_builtins_map_to_themselves", "C07_map_overrides",
                 "C07_exclude_audits_and_violations", "C07_exclude_wildcard_audits", "C07_imported_entries_come_from_the_peer",
-                "C07_multi_url_is_union", "C07_freshness_marking_keeps_entries"]
+                "C07_multi_url_is_union", "C07_freshness_marking_keeps_entries",
+                "C07_multi_url_verdict_is_that_of_the_union", "C07_verdict_is_a_function_of_the_remaining_records"]
     level_text = ("Theorems about the model of fetch_single_imported_audit / multi-URL aggregation / freshness marking, for every peer "
                   "file, criteria-map and exclude list: C07_mapping (an imported entry denotes locally exactly the union over the "
                   "closure of its criteria in the peer's table of what the criteria-map — consulted first — or the built-in rule maps "
                   "each peer criterion to; unmapped criteria contribute nothing), C07_exclude_* (no audit, violation or wildcard audit "
                   "of an excluded crate enters the import; the wildcard half is proved against a fact re-read from the source), "
-                  "C07_imported_entries_come_from_the_peer, C07_multi_url_is_union, C07_freshness_marking_keeps_entries. PARTIAL: the "
+                  "C07_imported_entries_come_from_the_peer, C07_multi_url_is_union, C07_freshness_marking_keeps_entries; at the level of the "
+                  "verdict (proofs/RecordSets.v): has_errors(resolve) is a function of the SET of records each crate has, so serving "
+                  "all sources of a multi-URL import as one merged list gives the verdict of the separate lists, and a skipped entry "
+                  "changes the verdict only through its own absence. PARTIAL: the "
                   "tolerant per-entry TOML parsing and the importable filter live in serde/toml code below the model; they are exercised "
                   "by the oracle (junk-injection metamorphic test, importable entries absent) on the implementation.")
     level_note = ("Model input = the peer file after cargo-vet's own foreign_audit_file_to_local (run by the harness), so the parser half "
@@ -1204,14 +1208,19 @@ class C16(SimpleSpec):
     model_imports = ["Base", "Extracted", "Show", "Imports", "Aggregate", "ShowAggregate"]
     coq_files = ["Properties/C16.v"]
     theorems = ["C16_audits_are_the_tagged_union", "C16_wildcards_are_the_tagged_union", "C16_nothing_non_importable",
-                "C16_provenance_tag", "C16_definition_conflict_iff", "C16_errors_persist"]
+                "C16_provenance_tag", "C16_definition_conflict_iff", "C16_errors_persist",
+                "C16_importing_the_aggregate_gives_the_same_verdict", "C16_verdict_depends_only_on_the_record_sets"]
     level_text = ("Theorems about the model of do_aggregate_audits for every finite list of sources: per crate the output audits are "
                   "exactly the importable audits of the sources in source order, each with the source appended to its aggregated-from "
                   "chain (likewise wildcard audits / trusted entries), nothing non-importable gets in; merging a further definition of "
                   "a criterion raises an error exactly when it differs from the first in description, description-url or written "
-                  "implies, and errors persist (no output on error). PARTIAL: 'importing the aggregate gives the same verdict as "
-                  "importing every source' and 'the output is a loadable audits file' are exercised on the implementation (two-stage "
-                  "metamorphic run through mock_online + resolve; re-parse of the written TOML), not proved.")
+                  "implies, and errors persist (no output on error). Verdict equivalence (proofs/RecordSets.v, all graphs / tables / "
+                  "stores): the resolver's verdict depends only on the set of records each crate has — not on their grouping into "
+                  "peers, order, duplicates, freshness marks or provenance tags — hence a store holding all imported entries of a "
+                  "crate as ONE peer list (the aggregate) has the verdict of the store with one list per source. PARTIAL: that an "
+                  "entry's criteria close to the same set under the merged criteria table as under its own source's table, and 'the "
+                  "output is a loadable audits file', are exercised on the implementation (two-stage metamorphic run through "
+                  "mock_online + resolve; re-parse of the written TOML), not proved.")
     level_note = ("Entries are opaque ids in the model (content is carried through unchanged by the code); the same routine serves "
                   "multi-URL imports (C07_multi_url_is_union).")
     design_ref = "DESIGN.md §4 C16"
@@ -1338,13 +1347,18 @@ class C17(SimpleSpec):
     pid = "C17"
     model_imports = ["Base", "Extracted", "Criteria", "Search", "AuditGraph", "DepGraph", "Resolve", "Show", "Suggest", "ShowSuggest"]
     coq_files = ["Properties/C17.v"]
-    theorems = ["C17_suggested_pair_is_common", "C17_candidate_heals", "C17_dedup_merges_criteria", "C17_dedup_keeps_all_criteria"]
+    theorems = ["C17_suggested_pair_is_common", "C17_candidate_heals", "C17_dedup_merges_criteria", "C17_dedup_keeps_all_criteria",
+                "C17_certifying_every_suggestion_makes_vet_pass"]
     level_text = ("Theorems about the model of suggest_delta / compute_suggest: for every failing crate the (from, to) pair chosen lies "
                   "in the reachable-from-root resp. reachable-from-target set of EVERY failed criterion (for any diffstat oracle), and "
                   "certifying such a pair for a list carrying a failed criterion makes the crate certified for it (C17_candidate_heals, "
                   "through the exact reachable sets of the failed search); de-duplication of suggestions unions the criteria of merged "
-                  "items (fact re-read from the source; the original defect F-C17 is fixed). PARTIAL: 'after certifying ALL suggestions "
-                  "vet succeeds' is exercised on the implementation (suggestions applied as audits, store re-resolved).")
+                  "items (fact re-read from the source; the original defect F-C17 is fixed). The whole statement "
+                  "(C17_certifying_every_suggestion_makes_vet_pass, proofs/SuggestHeal.v): for every graph, every store with an acyclic "
+                  "criteria table and every diffstat oracle, if the report is FailForVet and every failing crate got a proposal, then "
+                  "after certifying EVERY item of compute_suggest (through sort + de-duplication) for the minimal names of its "
+                  "criteria, resolve has no errors unless a new audit collides with a violation entry. The same run is also made on "
+                  "the implementation (suggestions applied as audits, store re-resolved).")
     level_note = ("Diffstats are the mock cache's (|to.major^2 - from.major^2|) and are an oracle of the model; git-revision targets "
                   "(the extra delta of suggest_delta) are outside the model and only covered by the apply-and-recheck oracle; registry "
                   "(import) suggestions and trust hints are not modelled.")
@@ -2099,14 +2113,19 @@ class C11(HistorySpec):
     coq_files = ["Properties/C11.v"]
     theorems = ["C11_updates_shape", "C11_local_audits_only_removed", "C11_no_audits_flag", "C11_imported_audits_from_live",
                 "C11_imported_wildcards_from_live", "C11_publishers_from_live", "C11_unpublished_from_live",
-                "C11_exemptions_only_narrowed", "C11_no_exemptions_flag", "C11_modes_that_may_add_exemptions"]
+                "C11_exemptions_only_narrowed", "C11_no_exemptions_flag", "C11_modes_that_may_add_exemptions",
+                "C11_updates_never_widen_what_is_certified", "C11_check_never_widens", "C11_prune_never_widens",
+                "C11_regenerate_imports_never_widens", "C11_cleanups_never_widen"]
     level_text = ("Theorems about the model of get_store_updates, for every store, graph and update mode: local audits are only "
                   "removed (untouched with --no-audits); every imports.lock entry written is an element of the live set with its "
                   "freshness flag cleared; local wildcard audits and trusted entries are never part of an update; outside "
                   "RegenerateExemptions every written exemption is an old one of the same version and suggest flag denoting a subset "
                   "of the old criteria (equal with --no-exemptions), proved through soundness of the search (an exemption is recorded "
                   "as required only for criteria its edge carries); and only init / regenerate exemptions use RegenerateExemptions "
-                  "(modes re-read from main.rs).")
+                  "(modes re-read from main.rs). At the level of meaning (proofs/NeverWidens.v): for every crate, criterion and version — in "
+                  "the graph or not — whatever the updated store certifies, the store the command loaded already certified "
+                  "(C11_updates_never_widen_what_is_certified, instantiated for check, prune × 8 flag sets, regenerate imports and the "
+                  "clean-ups after certify / trust / import).")
     level_note = ("as C09. What the user's own entry adds (certify, add-exemption, ...) is outside the update model and is checked "
                   "by the semantic-diff oracle on the real files around every command.")
     design_ref = "DESIGN.md §4 C11"
